@@ -276,6 +276,23 @@ def give_up(ctx, res):
                 ops.append("book digest")
                 impl.append(rb.digest())
                 res.case(("giveup", limit, impl[-1]), nontrivial=True)
+            # once given up, the address stays given up: another peer announcing it again does not start a new series
+            dialled = len(rb.attempts)
+            apply_event(rb, ("incoming", HOSTS[1], 50001), ops, impl)
+            apply_event(rb, ("peers", [(HOSTS[0], PORTS[0])]), ops, impl)
+            trace.append("announced again by another peer")
+            for _ in range(4):
+                t += 1800 + rng.choice([0, 1, 60])
+                apply_event(rb, ("step", t), ops, impl)
+                trace.append("step %d" % t)
+                if k in rb.nm.connected_peers:
+                    apply_event(rb, ("close", k), ops, impl)
+                ops.append("book digest")
+                impl.append(rb.digest())
+            if len(rb.attempts) > dialled and dialled >= limit + 1:
+                res.violations.append({"kind": "an address the node had given up on (%d dials, configured failures %d) is dialled again "
+                                               "after another peer announced it" % (dialled, limit),
+                                       "configured_failures": limit, "attempts": [a[1] for a in rb.attempts], "trace": trace[-8:]})
             res.count("give_up_scenarios")
             if rb.errors:
                 res.violations.append({"kind": "an exception escaped a network-manager operation: %s" % rb.errors[0],
